@@ -3,6 +3,7 @@ package rules
 import (
 	"fmt"
 	"go/constant"
+	"go/token"
 	"go/types"
 	"sort"
 	"strings"
@@ -370,6 +371,44 @@ func c17(r *core.Report) {
 	}
 
 	// ---- C17-ALPHABET
+	// ---- C17-OID-CODEC: the algorithm identifier is stored as 8 big-endian bytes per arc; New encodes
+	// and At decodes. They must use the same fixed-width codec over the same 8 bytes, or identifiers with
+	// bytes >= 0x80 (rsaEncryption 1.2.840.113549…, any arc >= 128) come back different: marshal/parse
+	// stops round-tripping and distinct keys collide
+	r.Rule("C17-OID-CODEC", "oids.New and OID.At use the same fixed-width codec over the same 8 bytes per arc", 2)
+	if nw, at := needFn(r, "f/x509/oids", "New"), needFn(r, "f/x509/oids", "OID.At"); nw != nil && at != nil {
+		ef, _ := codecCalls(nw, "enc")
+		df, dcalls := codecCalls(at, "dec")
+		okFam := len(ef) == 1 && len(df) == 1 && ef[0] == df[0]
+		r.Check(okFam, "C17-OID-CODEC", "oids.New / OID.At codec", p.Pos(at.Pos()), fmt.Sprintf("arcs are written with %v and read with %v", ef, df), fmt.Sprintf("oids.New writes arcs with %v but OID.At reads them with %v (no library decoder of the same family: e.g. a hand-written loop over the string, which iterates runes, not bytes)", ef, df))
+		if okFam {
+			w := familyWidth[ef[0]]
+			okWin := false
+			sField := needField(r, "f/x509/oids", "OID", "s")
+			// the decoder's input is oid.s[begin:end] with end - begin == width and begin == i*width
+			core.BackSlice(dcalls[0].Call.Args[len(dcalls[0].Call.Args)-1], func(x ssa.Value) bool {
+				sl, ok := x.(*ssa.Slice)
+				if !ok || sl.Low == nil || sl.High == nil {
+					return true
+				}
+				if f, _ := core.FieldRead(core.Through(sl.X)); !core.SameField(f, sField) {
+					return true
+				}
+				hi, ok1 := core.Through(sl.High).(*ssa.BinOp)
+				lo, ok2 := core.Through(sl.Low).(*ssa.BinOp)
+				if ok1 && ok2 && hi.Op == token.ADD && core.Through(hi.X) == ssa.Value(lo) && lo.Op == token.MUL {
+					k1, isK1 := core.ConstInt(hi.Y)
+					k2, isK2 := core.ConstInt(lo.Y)
+					if isK1 && isK2 && k1 == w && k2 == w && core.Through(lo.X) == ssa.Value(at.Params[1]) {
+						okWin = true
+					}
+				}
+				return true
+			})
+			r.Check(okWin, "C17-OID-CODEC", "OID.At window", p.Pos(at.Pos()), fmt.Sprintf("arc i is decoded from bytes [i*%d, i*%d+%d) of the stored string", w, w, w), "OID.At does not decode arc i from its own 8 bytes")
+		}
+	}
+
 	r.Rule("C17-ALPHABET", "peer-id alphabet strictly ascending, unpadded encoding, length checked before decoding", 3)
 	{
 		obj, _ := p.Object(core.ModPath, "Base64Alphabet").(*types.Const)
